@@ -3,7 +3,7 @@
    (2) why the push after every sub-Message of a batch matters; (3) non-vacuity of the theorems' premises. *)
 From Coq Require Import List Arith Bool Lia.
 Import ListNotations.
-From Muscle Require Import Refl.Index Refl.IndexProofs Refl.IndexModel Refl.IndexModelProofs.
+From Muscle Require Import Refl.Index Refl.IndexProofs Refl.IndexModel Refl.IndexModelProofs Refl.IndexRunProofs.
 
 Definition a_ : name := NX 0.
 Definition x_ : name := NX 1.
